@@ -34,7 +34,34 @@ func (vc *VC) readField(st *State, base Term, structT types.Type, f *types.Var) 
 	name := vc.fieldName(structT, f)
 	srt := sortOfType(f.Type())
 	h := vc.heapGet(st, name, arrSort(SInt, srt))
-	return Select(h, base)
+	v := Select(h, base)
+	vc.assumeAllocated(st, v, f.Type())
+	return v
+}
+
+// assumeAllocated: a reference (or the backing array of a slice) obtained from the heap or from a
+// call denotes an object that exists now: it is not one of the references this activation will
+// allocate later (own allocations are numbered alloc$base+1, +2, ...; all foreign objects, whenever
+// created, are numbered at or below alloc$base).
+func (vc *VC) assumeAllocated(st *State, v Term, t types.Type) {
+	if t == nil || strings.Contains(v.S, "q$") {
+		return
+	}
+	var lhs Term
+	if v.Sort == SSlc {
+		lhs = sbase(v)
+	} else if v.Sort == SInt {
+		switch types.Unalias(t).Underlying().(type) {
+		case *types.Pointer, *types.Map, *types.Chan:
+			lhs = v
+		default:
+			return
+		}
+	} else {
+		return
+	}
+	lim := app(SInt, "+", Term{"alloc$base", SInt}, vc.heapGetDefault(st, "gl$$nalloc", IntLit(0)))
+	st.assume(app(SBool, "<=", lhs, lim))
 }
 
 func (vc *VC) writeField(st *State, base Term, structT types.Type, f *types.Var, v Term) {
@@ -792,6 +819,7 @@ func (vc *VC) evalIndex(st *State, e *ast.IndexExpr) Term {
 		if isProtoMsgPtr(vc.typeOf(e)) {
 			st.assume(Not(Eq(ev, IntLit(0)))) // protobuf: repeated message fields hold no nil elements
 		}
+		vc.assumeAllocated(st, ev, vc.typeOf(e))
 		return ev
 	case *types.Pointer: // pointer to array
 		i := vc.eval(st, e.Index)
